@@ -69,11 +69,21 @@ type Chan[T any] struct {
 	vc     []int64
 }
 
+// NewChan replaces make(chan T, n). Every channel has both representations: outside a simulation
+// (pass-through mode, the -race companion) operations go to the real channel; while a simulation
+// is running they go to the simulated queue, whoever created the channel and whenever — a
+// package-level semaphore is created at init time and used inside simulations.
 func NewChan[T any](n int) *Chan[T] {
-	if active == nil {
-		return &Chan[T]{real: make(chan T, n), cap: n}
+	return &Chan[T]{real: make(chan T, n), cap: n}
+}
+
+// adopt moves what was put into the real channel outside a simulation (a token pool filled by an
+// init function) into the simulated queue.
+func (c *Chan[T]) adopt() {
+	for len(c.real) > 0 {
+		c.buf = append(c.buf, <-c.real)
+		c.sent++
 	}
-	return &Chan[T]{cap: n}
 }
 
 func (c *Chan[T]) Send(v T) {
@@ -81,14 +91,12 @@ func (c *Chan[T]) Send(v T) {
 		blockForever()
 		return
 	}
-	if c.real != nil {
+	s := active
+	if s == nil {
 		c.real <- v
 		return
 	}
-	s := active
-	if s == nil {
-		panic("simrt: simulated channel used outside a simulation")
-	}
+	c.adopt()
 	Yield(SiteLock)
 	for !c.closed && c.cap > 0 && len(c.buf) >= c.cap {
 		s.block(c)
@@ -135,14 +143,12 @@ func (c *Chan[T]) Recv2() (T, bool) {
 		blockForever()
 		return zero, false
 	}
-	if c.real != nil {
+	s := active
+	if s == nil {
 		v, ok := <-c.real
 		return v, ok
 	}
-	s := active
-	if s == nil {
-		panic("simrt: simulated channel used outside a simulation")
-	}
+	c.adopt()
 	Yield(SiteLock)
 	for !c.ready() {
 		s.block(c)
@@ -156,29 +162,28 @@ func (c *Chan[T]) Recv() T {
 }
 
 func (c *Chan[T]) Close() {
-	if c.real != nil {
-		close(c.real)
-		return
-	}
 	if c.closed {
 		panic("close of closed channel")
 	}
 	c.closed = true
 	if s := active; s != nil {
+		c.adopt()
 		t := s.cur
 		c.vc = joinVC(c.vc, t.vc)
 		s.unblockChan(c)
+		return
 	}
+	close(c.real)
 }
 
 func (c *Chan[T]) Len() int {
 	if c == nil {
 		return 0
 	}
-	if c.real != nil {
+	if active == nil {
 		return len(c.real)
 	}
-	return len(c.buf)
+	return len(c.buf) + len(c.real)
 }
 
 func (c *Chan[T]) Cap() int {
@@ -189,7 +194,7 @@ func (c *Chan[T]) Cap() int {
 }
 
 // Selected returns the value received by the last select case on this channel.
-func (c *Chan[T]) Selected() T           { return c.sel }
+func (c *Chan[T]) Selected() T          { return c.sel }
 func (c *Chan[T]) Selected2() (T, bool) { return c.sel, c.selOK }
 
 func blockForever() {
@@ -221,7 +226,13 @@ type sendCase[T any] struct {
 func RecvCase[T any](c *Chan[T]) SelCase      { return recvCase[T]{c} }
 func SendCase[T any](c *Chan[T], v T) SelCase { return sendCase[T]{c, v} }
 
-func (r recvCase[T]) ready() bool { return r.c != nil && r.c.ready() }
+func (r recvCase[T]) ready() bool {
+	if r.c == nil {
+		return false
+	}
+	r.c.adopt()
+	return r.c.ready()
+}
 func (r recvCase[T]) fire() {
 	v, ok := r.c.take()
 	r.c.sel, r.c.selOK = v, ok
@@ -247,6 +258,7 @@ func (w sendCase[T]) ready() bool {
 	if c.closed {
 		return true // will panic, like Go
 	}
+	c.adopt()
 	if c.cap > 0 {
 		return len(c.buf) < c.cap
 	}
